@@ -33,7 +33,9 @@ def configs(tier, seed):
                     # features spelled as wishbone.Feature members instead of strings
                     "enum": k % 3 == 1,
                     # an add() that the arbiter refuses (initiator lacks err/rty) before / between the valid ones
-                    "refused_at": (k % N) if (k % 4 == 2 and ("err" in af or "rty" in af)) else None})
+                    "refused_at": (k % N) if (k % 4 == 2 and ("err" in af or "rty" in af)) else None,
+                    # the arbiter is elaborated once after this many initiators and extended afterwards
+                    "staged": (1 + k % N) if (k % 5 == 3 and N > 1) else None})
     # hand-picked representatives
     add(1, [], [[]], 8, [8])
     add(1, ["lock", "stall"], [["stall"]], 16, [16])
@@ -102,6 +104,9 @@ def maker(cfg):
                 except ValueError:
                     ghosts.append(g)       # still wired to something else in the design: its outputs are arbitrary
             arb.add(it)
+            if cfg.get("staged") == i + 1 and i + 1 < len(intrs):
+                from amaranth.hdl import Fragment
+                Fragment.get(arb, None)
         ports = flat_ports(arb) + flat_ports(*intrs, env="out")
         if ghosts:
             ports = ports + flat_ports(*ghosts, env="out")
